@@ -415,3 +415,7 @@ mod tests {
         Ok(())
     }
 }
+
+#[cfg(any(kani, pearl_verif))]
+#[path = "/verif/kani/layout_record_header.rs"]
+mod verif_kani;
